@@ -185,13 +185,19 @@ def k3(ctx):
               "ProvenPerm::check no longer states the invariant 'proof proves c[id] = c[elem]' — the reference orientation of this rule is gone", where_of(ck))
     sites = 0
     orient = []
-    # (1) leader union: source = first AppliedId parameter (the proof's left side), target = second
-    for lid in C.need("leader-union", C.leader_union_functions(crate)):
-        b = crate.bodies[lid]
-        aps = [b.var_names.get(i) for i in range(1, b.argc + 1) if b.local_ty(i) == "types::AppliedId"]
+    # (1) leader union (or a helper its same-class branch was extracted into): source = first invocation
+    #     parameter of the leader union (the proof's left side), target = second
+    leaders = C.need("leader-union", C.leader_union_functions(crate))
+    helper_ids = set(C.leader_helpers(crate))
+    for site in C.leader_add_sites(crate):
+        b, lead = site["body"], site["leader"]
+        aps = [lead.var_names.get(i) for i in range(1, lead.argc + 1) if lead.local_ty(i) == "types::AppliedId"]
         if len(aps) != 2:
             raise mir.AnchorMissing("leader union's two invocation parameters", str(aps))
-        src, tgt = ("param", aps[0]), ("param", aps[1])
+        inv = {v: k for k, v in site["pmap"].items()}
+        if aps[0] not in inv or aps[1] not in inv:
+            raise mir.AnchorMissing("mapping of the leader union's invocation parameters into " + b.id, str(site["pmap"]))
+        src, tgt = ("param", inv[aps[0]]), ("param", inv[aps[1]])
         for bi, si, s in b.statements():
             rv = s["rv"] if s["k"] == "assign" else None
             if rv and rv["k"] == "agg" and str(rv.get("adt", "")).endswith("perm::ProvenPerm"):
@@ -203,13 +209,13 @@ def k3(ctx):
                 s_, t_ = (tgt, src) if flipped else (src, tgt)
                 ok = sh == (t_, s_)
                 orient.append(("leader-union", ok))
-                ctx.check(ok, "orientation:leader-union:" + C.fkey(b),
+                ctx.check(ok, "orientation:leader-union:" + C.fkey(lead),
                           "the permutation added for a proof %s -> %s is %s.m ; %s.m^-1" % (s_[1], t_[1], t_[1], s_[1]),
                           "in %s the permutation paired with a proof oriented %s -> %s is %s; by the invariant (proof proves c[id] = c[elem]) it must be %s.m.compose(&%s.m.inverse()). The two coincide only for involutions, so every 3-cycle symmetry gets a proof of the inverse permutation" % (
-                              C.short(lid), s_[1], t_[1], role_str(el), t_[1], s_[1]), where_of(b, bi, s.get("line")))
+                              C.short(b.id), s_[1], t_[1], role_str(el), t_[1], s_[1]), where_of(b, bi, s.get("line")))
     # (2) self-symmetry derivation: (a, b, proof) = pc_congruence(..)  proves a -> b
     for b in crate.fns():
-        if b.id in C.leader_union_functions(crate):
+        if b.id in leaders or b.id in helper_ids:
             continue
         for bi, si, s in b.statements():
             rv = s["rv"] if s["k"] == "assign" else None
